@@ -21,6 +21,9 @@ def run(ctx, rep):
     rep.rule('R06.2', 'ordering compares decoded signed integers')
     rep.rule('R06.3', 'range check where integers enter the encoding')
     rep.rule('R06.4', 'type discipline and operand sides of the operator methods')
+    rep.rule('R06.5', 'the three syntactic forms agree: the fused variable-op-literal instructions preserve operator and operand sides')
+    from rules import c01
+    c01.check_fused_sides(ctx, rep, 'R06.5')
     sem = chain.object_method_semantics(ctx)
     sites = psc.census(ctx)
     # R06.1
